@@ -34,8 +34,9 @@ def find_universe(hash_type, size=5):
   """Search a node universe with colliding replica positions (deterministic)."""
   if hash_type == 'fnv1a_ch':
     # replica keys are "<i>-<instance>": two servers sharing an instance name collide on every replica
-    return [('10.0.0.1', 2004, 'a'), ('10.0.0.2', 2004, 'a'), ('10.0.0.1', 2104, 'b'),
-            ('10.0.0.3', 2004, 'c'), ('10.0.0.2', 2104, 'b')][:size]
+    # (three servers share 'a': chains of three colliding entries p, p+1, p+2 owned by three nodes)
+    return [('10.0.0.1', 2004, 'a'), ('10.0.0.2', 2004, 'a'), ('10.0.0.3', 2004, 'a'),
+            ('10.0.0.1', 2104, 'b'), ('10.0.0.2', 2104, 'b')][:size]
   cands = [('10.0.0.%d' % (k // 3 + 1), 2004 + 100 * (k % 3), 'abc'[k % 3]) for k in range(15)]
   pos = {}
   for c in cands:
@@ -92,8 +93,18 @@ def entries(router):
   return tuple(router.ring.ring)
 
 
+class RoutingError(Exception):
+  pass
+
+
 def table_for(router, positions, keys):
-  return [tuple(router.getDestinations(keys[p])) for p in positions]
+  out = []
+  for p in positions:
+    try:
+      out.append(tuple(router.getDestinations(keys[p])))
+    except Exception as e:   # noqa
+      raise RoutingError('getDestinations(%r) [ring position %d] raised %r' % (keys[p], p, e))
+  return out
 
 
 def pick_positions(ring_entries, full):
@@ -141,6 +152,13 @@ def classify_history_diff(impl_entries, fresh_entries, universe, hash_type):
 
 
 def expand(arg):
+  try:
+    return _expand(arg)
+  except RoutingError as e:
+    return {'bad': [('routing:exception', '%s after history %r' % (e, arg[2]), {'hist': arg[2]})], 'succ': [], 'checked': 0, 'npos': 0}
+
+
+def _expand(arg):
   """One state: check compatibility/history-independence in the state, then every outgoing transition."""
   hash_type, universe, hist, full = arg
   universe = [tuple(d) for d in universe]
